@@ -56,6 +56,20 @@ func (m *Machine) osOpenFile(fr *frame, name Str, flag *Term) Value {
 	}
 	create := bit(oCREATE)
 	nilFile := (*Value)(nil)
+	if g.kind == 4 {
+		// dangling symbolic link: open follows it; O_CREATE creates the target (unless
+		// O_EXCL, which refuses to follow a link), anything else fails with ENOENT
+		if !create {
+			return Tuple{nilFile, m.mkError("open " + path + ": no such file or directory")}
+		}
+		if bit(oEXCL) {
+			return Tuple{nilFile, m.mkError("open " + path + ": file exists")}
+		}
+		g.kind = 1
+		g.gen++
+		m.fsLog = append(m.fsLog, "create through dangling symlink "+path)
+		return Tuple{m.newFileValue(fr, path), Iface{}}
+	}
 	if g.kind == 0 {
 		if !create {
 			return Tuple{nilFile, m.mkError("open " + path + ": no such file or directory")}
@@ -100,6 +114,20 @@ func (p *Program) installOS() {
 		g.gen++
 		return Tuple{m.newFileValue(fr, path), Iface{}}
 	}
+	statFn := func(follow bool) intrinsicFn {
+		return func(fr *frame, a []Value) Value {
+			m := fr.m
+			path := a[0].(Str).Concrete()
+			g := m.ghost(path)
+			if g.kind == 0 || (follow && g.kind == 4) {
+				return Tuple{Iface{}, m.mkError("stat " + path + ": no such file or directory")}
+			}
+			// a FileInfo the code under analysis only tests for nil-ness of the error
+			return Tuple{Iface{t: types.Typ[types.String], v: MkStr("fileinfo:" + path)}, Iface{}}
+		}
+	}
+	in["os.Stat"] = statFn(true)
+	in["os.Lstat"] = statFn(false)
 	in["os.Remove"] = func(fr *frame, a []Value) Value {
 		m := fr.m
 		path := a[0].(Str).Concrete()
@@ -167,6 +195,9 @@ func (p *Program) installOS() {
 	// roaring model
 	in["github.com/RoaringBitmap/roaring.symCard"] = func(fr *frame, a []Value) Value { return fr.m.card(a[0].(*Term)) }
 	in["github.com/RoaringBitmap/roaring.symSize"] = func(fr *frame, a []Value) Value { return fr.m.sizeUF(a[0].(*Term)) }
+	in["github.com/RoaringBitmap/roaring.symIsConcrete"] = func(fr *frame, a []Value) Value {
+		return KB(a[0].(*Term).IsConst())
+	}
 	in["github.com/RoaringBitmap/roaring.symOutOfBound"] = func(fr *frame, a []Value) Value {
 		fr.m.outOfBound++
 		fr.m.end(EndOutOfBound, "%s", a[0].(Str).Concrete())
@@ -178,16 +209,27 @@ func (p *Program) installOS() {
 func (p *Program) installVerifModels() {
 	v := p.verifIntrinsics
 	const roaringPath = "github.com/RoaringBitmap/roaring"
-	v["verifBitmap"] = func(fr *frame, a []Value) Value {
-		var cell Value = Struct{a[0]}
+	oneWord := func(bits Value) Value {
+		b := &Backing{v: []Value{bits}, esize: 8}
+		var cell Value = Struct{Slice{a: b, len: 1, cap: 1}}
 		return &cell
 	}
+	v["verifBitmap"] = func(fr *frame, a []Value) Value { return oneWord(a[0]) }
 	v["verifBits"] = func(fr *frame, a []Value) Value {
 		p := a[0].(*Value)
 		if p == nil {
 			fr.m.runtimePanic(fr, token.NoPos, "verifBits(nil bitmap)")
 		}
-		return (*p).(Struct)[0]
+		w := (*p).(Struct)[0].(Slice)
+		if w.len == 0 {
+			return K(64, 0)
+		}
+		for i := 1; i < w.len; i++ {
+			if t := (*w.At(i)).(*Term); !t.IsConst() || t.val != 0 {
+				fr.m.end(EndOutOfBound, "verifBits: bitmap holds rows >= 64")
+			}
+		}
+		return *w.At(0)
 	}
 	v["verifSizedBitmap"] = func(fr *frame, a []Value) Value {
 		m := fr.m
@@ -200,8 +242,7 @@ func (p *Program) installVerifModels() {
 		m.assume(BAnd(fam, Cmp(OpUle, sz, K(64, 1<<20))))
 		m.assertPC(Cmp(OpEq, m.sizeUF(bits), sz))
 		m.noteOnce("bound: bitmap sizes range over {8} ∪ {even 12..2^20} (array-container bitmaps), bound to the bitmap through the uninterpreted size function")
-		var cell Value = Struct{bits}
-		return &cell
+		return oneWord(bits)
 	}
 	v["verifFileKind"] = func(fr *frame, a []Value) Value {
 		return K(64, uint64(fr.m.ghost(a[0].(Str).Concrete()).kind))
